@@ -723,3 +723,12 @@ package exec
 //@   modifies unknown
 //@   loop 1 invariant w.slices != nil && w.tasks != nil && w.taskStats != nil && forall(k, uint64, has(w.slices, k) == old(has(w.slices, k)) && w.slices[k] == old(w.slices[k])) && has(w.tasks, inv.Index) == old(has(w.tasks, inv.Index))
 //@   loop 1 invariant refs-resolved: forall(i, 0, range_idx, ite(hastype(old(inv.Args[i]), invocationRef), has(w.slices, unbox(old(inv.Args[i]), invocationRef).Index) && inv.Args[i] == w.slices[unbox(old(inv.Args[i]), invocationRef).Index], inv.Args[i] == old(inv.Args[i]))) && forall(i, range_idx, len(inv.Args), inv.Args[i] == old(inv.Args[i]))
+
+// ---- C12: every scan of a Result reads partition 0 of each root task, in shard order, through fresh readers ----
+
+//@ func exec.(*Result).open () (rc)
+//@   requires r != nil && r.sess != nil && r.sess.executor != nil
+//@   ensures  one-reader-per-root-in-order: rc != nil && len(multiOf(rc)) == len(r.tasks) && forall(i, 0, len(r.tasks), readerTask(multiOf(rc)[i]) == r.tasks[i] && readerPartition(multiOf(rc)[i]) == 0)
+//@   ensures  fresh-readers: fresh(multiOf(rc)) || len(r.tasks) == 0
+//@   modifies nothing
+//@   loop 1 invariant len(readers) == len(r.tasks) && fresh(readers) && forall(j, 0, range_idx, readerTask(readers[j]) == r.tasks[j] && readerPartition(readers[j]) == 0)
